@@ -73,7 +73,8 @@ func ImportBlocks(
 		return e.Wrap(err)
 	}
 
-	if int64(len(ims)) < batchlimit {
+	// NOTE the last batch is not saved yet, also when it is full
+	if len(ims) > 0 {
 		if err := saveImporters(ctx, ims, mergeBlockWriterDatabasesf); err != nil {
 			return e.WithMessage(err, "save importers")
 		}
